@@ -13,7 +13,7 @@ From Soy Require Import Model.Bytes Model.Num Model.Values Model.Outcome Model.A
   Model.Escape Model.Interp Spec.Expr Spec.Cmd Spec.CmdIndep Proofs.ScopeRel Proofs.ScopeProofs Proofs.ScopeSpecProofs
   Proofs.ScopeIndepProofs Proofs.ScopeIndepBridge
   Model.Token Model.Parser Model.Compile Spec.CallNames Proofs.CompilePermProofs Proofs.ScopeNames Proofs.ScopeRegistry
-  Model.RawText Spec.Text Spec.CmdText Proofs.ScopeText.
+  Model.RawText Spec.Text Spec.CmdText Proofs.ScopeText Proofs.ScopeCmdLemmas.
 Open Scope N_scope.
 
 (* ------------------------------------------------------------------ *)
@@ -288,6 +288,78 @@ Proof. exact ScopeText.rawtext_written_exactly. Qed.
 Print Assumptions raw_text_written_exactly.
 
 (* ------------------------------------------------------------------ *)
+(* switch with several values per case, css, log, debugger, plural: what the
+   Spec (and so, by exec_impl_spec, the walker) does, in readable form; and the
+   parser's side of {case v1, v2, ...} and {css ...} *)
+
+(* a case is taken iff the switch value equals one of its values (tried left to right, stopping at the
+   first hit); {default} is always taken; no case: nothing *)
+Theorem switch_case_taken : forall l entry md en sv p vs vals body r n,
+  pure_vals l en vs vals -> existsb (equals sv) vals = true ->
+  switch_spec l entry md en sv (NSwitchCase p vs body :: r) n = l_exec l entry en md body n.
+Proof. exact ScopeCmdLemmas.switch_case_taken. Qed.
+Theorem switch_case_skipped : forall l entry md en sv p vs vals body r n,
+  pure_vals l en vs vals -> vs <> [] -> existsb (equals sv) vals = false ->
+  switch_spec l entry md en sv (NSwitchCase p vs body :: r) n = switch_spec l entry md en sv r n.
+Proof. exact ScopeCmdLemmas.switch_case_skipped. Qed.
+Theorem switch_values_stop_at_first_hit : forall l en sv x xs v n n',
+  l_eval l en x n = Ok (v, n') -> equals sv v = true -> case_hit_spec l en sv (x :: xs) n = Ok (true, n').
+Proof. exact case_hit_stops. Qed.
+Theorem switch_default_taken : forall l entry md en sv p body r n,
+  switch_spec l entry md en sv (NSwitchCase p [] body :: r) n = l_exec l entry en md body n.
+Proof. exact ScopeCmdLemmas.switch_default_taken. Qed.
+Print Assumptions switch_case_taken.
+Print Assumptions switch_case_skipped.
+
+(* the parser puts into a {case} node exactly the expressions between the commas, in source order:
+   at least one for {case}, none for {default} *)
+Theorem case_values_in_order : forall inlen pe w f token values s n s',
+  case_loop inlen pe w f token values s = Parser.COk n s' ->
+  exists more body, n = NSwitchCase (t_pos token) (values ++ more) body /\
+    Forall (fun v => exists s0 s1, pe 0 s0 = Parser.COk v s1) more /\
+    (if tis token Tables.pit_Default then more = [] else more <> []).
+Proof. exact ScopeCmdLemmas.case_values_in_order. Qed.
+Print Assumptions case_values_in_order.
+
+(* css: the suffix; with an expression, its string, a dash, the suffix *)
+Theorem css_plain : forall cf l entry md en p suffix n,
+  exec_body cf l entry md en (NCss p None suffix) n = (suffix, Ok (tt, n)).
+Proof. exact ScopeCmdLemmas.css_plain. Qed.
+Theorem css_expr : forall cf l entry md en p x suffix n v n' s,
+  l_eval l en x n = Ok (v, n') -> value_string v = Ok s ->
+  exec_body cf l entry md en (NCss p (Some x) suffix) n = ((s ++ s_dash) ++ suffix, Ok (tt, n')).
+Proof. exact ScopeCmdLemmas.css_expr. Qed.
+Theorem css_tag_shape : forall inlen lexq pexpr efuel token s n s',
+  parse_css inlen lexq pexpr efuel token s = Parser.COk n s' ->
+  exists cmd : tok,
+    match last_index_of 44 (t_val cmd) with
+    | None => n = NCss (t_pos token) None (trim_space (t_val cmd))
+    | Some i => exists e s2 s3,
+        parse_quoted_expr inlen lexq pexpr efuel (trim_space (take i (t_val cmd))) s2 = Parser.COk e s3 /\
+        n = NCss (t_pos token) (Some e) (trim_space (drop (S i) (t_val cmd)))
+    end.
+Proof. exact ScopeCmdLemmas.css_tag_shape. Qed.
+Print Assumptions css_tag_shape.
+
+(* log renders its body and writes nothing; debugger does nothing *)
+Theorem log_writes_nothing : forall cf l entry md en p body n, fst (exec_body cf l entry md en (NLog p body) n) = [].
+Proof. exact ScopeCmdLemmas.log_writes_nothing. Qed.
+Theorem debugger_nothing : forall cf l entry md en p n, exec_body cf l entry md en (NDebugger p) n = ([], Ok (tt, n)).
+Proof. exact ScopeCmdLemmas.debugger_nothing. Qed.
+
+(* plural without a bundle: the explicit case equal to the number, else the default *)
+Theorem plural_explicit_case : forall l entry md en mp i dflt cs1 p body cs2 n,
+  forallb (fun c => negb (plural_case_is i c)) cs1 = true ->
+  plural_spec l entry md en mp i dflt (cs1 ++ NMsgPluralCase p i body :: cs2) n =
+  l_exec l entry en md (NMsg mp 0 [] [] body) n.
+Proof. exact ScopeCmdLemmas.plural_explicit_case. Qed.
+Theorem plural_default : forall l entry md en mp i dflt cs n,
+  forallb (fun c => negb (plural_case_is i c)) cs = true ->
+  plural_spec l entry md en mp i dflt cs n = l_exec l entry en md (NMsg mp 0 [] [] dflt) n.
+Proof. exact ScopeCmdLemmas.plural_default. Qed.
+Print Assumptions plural_explicit_case.
+
+(* ------------------------------------------------------------------ *)
 (* non-vacuity: a bundle with a let that shadows a param inside an {if},
    data="all" from under that let, a foreach whose variable shadows the same
    param, a call with an explicit param computed from index($a).
@@ -378,3 +450,12 @@ Example C02_example_text_tags :
                  tk 94 21 (b "/literal"); tk 4 29 (b "}")]) =
       Parser.COk (Some (NRawText 9 (b "a" ++ [10] ++ b "  // b "))) s2.
 Proof. eexists. eexists. split; vm_compute; reflexivity. Qed.
+
+(* switch: {switch 2}{case 1, 2}A{case 2}B{default}C{/switch} prints A; with 5: C *)
+Definition ex_sw (v : Z) : node :=
+  NSwitch 0 (NInt 0 v) [NSwitchCase 0 [NInt 0 1; NInt 0 2] (NRawText 0 (b "A")); NSwitchCase 0 [NInt 0 2] (NRawText 0 (b "B"));
+                        NSwitchCase 0 [] (NRawText 0 (b "C"))].
+Example C02_example_switch :
+  fst (exec_spec ex_cf 9 [] [] 1 (ex_sw 2) 7) = b "A" /\ fst (exec_spec ex_cf 9 [] [] 1 (ex_sw 5) 7) = b "C" /\
+  pure_vals (spec_level ex_cf 5) [] [NInt 0 1; NInt 0 2] [VInt 1; VInt 2].
+Proof. split; [vm_compute; reflexivity|]. split; [vm_compute; reflexivity|]. repeat constructor. Qed.
